@@ -1,33 +1,54 @@
-// Package vrt: spike of the cooperative scheduler.
+// Package vrt is the controlled cooperative scheduler under which the transformed gldap code runs.
+//
+// Every goroutine of the closed system is a "thread": a real goroutine that runs only while it holds the
+// scheduler's token. Before each hooked operation (Point) the thread publishes the operation and parks;
+// the scheduler picks one enabled thread. A recorded list of choices replays an execution exactly.
 package vrt
 
 import (
 	"fmt"
-	"os"
 	"runtime"
+	"sort"
 	"strings"
+	"sync"
 	"sync/atomic"
+	"time"
 	"unsafe"
 )
 
 type thread struct {
 	id      int
-	cid     uint64 // canonical id
+	cid     uint64 // canonical id: (parent cid, spawn index)
+	name    string
 	nspawn  int
 	vc      []uint32 // vector clock
-	h       uint64   // hash chain
-	nobj    int
+	h       uint64   // hash chain (program position + what it has seen)
 	wake    chan struct{}
-	enabled func() bool // nil = always
+	enabled func() bool      // nil = always
+	wakeAt  func() time.Time // earliest virtual time at which enabled may turn true by itself (zero = never)
 	opName  string
 	done    bool
 	parked  bool
+	started bool
 }
 
+// Step is one real choice point (more than one enabled thread).
 type Step struct {
 	N          int  // number of enabled threads
-	Chosen     int  // index in canonical enabled list
-	CurEnabled bool // running thread was still enabled
+	Chosen     int  // index in the canonical enabled list (running thread first if still enabled, then ascending id)
+	CurEnabled bool // the running thread was still enabled: choosing another one is a preemption
+}
+
+type Crash struct {
+	Thread string
+	Value  string
+	Site   string // innermost non-runtime frame
+}
+
+type Race struct {
+	Loc   string
+	A, B  string // "func (r|w)"
+	Count int
 }
 
 type Sched struct {
@@ -38,60 +59,79 @@ type Sched struct {
 	finished chan struct{}
 	Deadlock bool
 	Blocked  []string
-	Crash    interface{}
+	Crash    *Crash
+	Horizon  bool
+	MaxPts   int
 	teardown bool
 	Points   int
-	gidMap   map[int64]*thread
 	Log      []string
-	Races    map[string]int
-	shadow   map[uintptr]*shadowCell
+	Races    map[string]*Race
+	shadow   map[unsafe.Pointer]*shadowCell // keyed by pointer: the object stays alive, its address cannot be reused within the execution
 	objs     []*Obj
 	logObj   *Obj
+	clockObj *Obj
+	clock    time.Duration
+	Data     interface{} // per-execution harness state
+	chans    map[interface{}]*chanState
 	// pruning
-	Seen   map[uint64]int
-	Budget func(k int) int // remaining budget at choice index k (nil = no pruning)
-	Pruned bool
-	States int
+	Seen     map[uint64]int
+	Budget   func(k int) int
+	Pruned   bool
+	States   int
+	Diverged string
+	tmu      sync.Mutex
+	finOnce  sync.Once
 }
 
 var cur atomic.Pointer[Sched]
 
+// Current returns the scheduler of the execution in progress (nil outside one).
 func Current() *Sched { return cur.Load() }
 
-type abortT struct{}
+var processBase = time.Now()
 
-// Run executes body as thread 0 under a fresh scheduler replaying prefix.
+// LastActivity is read by the watchdog.
+var LastActivity atomic.Int64
+
+// Run executes body as thread 0 under a fresh scheduler replaying prefix, then default choices.
 func Run(prefix []int, body func(), pre func(*Sched)) *Sched {
-	s := &Sched{prefix: prefix, finished: make(chan struct{}), Races: map[string]int{}, shadow: map[uintptr]*shadowCell{}}
+	s := &Sched{prefix: prefix, finished: make(chan struct{}), Races: map[string]*Race{}, shadow: map[unsafe.Pointer]*shadowCell{}, MaxPts: 200000}
 	if pre != nil {
 		pre(s)
 	}
 	cur.Store(s)
-	t := s.newThread()
+	t := s.newThread("main")
 	t.cid = 1
 	t.vc = []uint32{1}
-	s.logObj = s.NewObj()
+	t.started = true
+	s.logObj = &Obj{}
+	s.clockObj = &Obj{}
 	s.cur = t
+	LastActivity.Store(time.Now().UnixNano())
 	go s.threadMain(t, body)
 	<-s.finished
 	cur.Store(nil)
 	return s
 }
 
-func (s *Sched) newThread() *thread {
-	t := &thread{id: len(s.threads), wake: make(chan struct{}, 1)}
+func (s *Sched) newThread(name string) *thread {
+	t := &thread{id: len(s.threads), name: name, wake: make(chan struct{}, 1)}
 	s.threads = append(s.threads, t)
 	return t
 }
 
+type abortT struct{}
+
 func (s *Sched) threadMain(t *thread, body func()) {
 	defer func() {
 		if r := recover(); r != nil {
-			if _, ok := r.(abortT); !ok && s.Crash == nil {
-				s.Crash = fmt.Sprintf("thread %d: %v", t.id, r)
+			if _, ok := r.(abortT); !ok && s.Crash == nil && !s.teardown {
+				s.Crash = &Crash{Thread: t.name, Value: fmt.Sprint(r), Site: panicSite()}
 			}
 		}
+		s.tmu.Lock()
 		t.done = true
+		s.tmu.Unlock()
 		if s.teardown {
 			s.teardownNext()
 			return
@@ -108,11 +148,33 @@ func (s *Sched) threadMain(t *thread, body func()) {
 			return
 		}
 	}
+	t.started = true
 	body()
 }
 
+func panicSite() string {
+	pcs := make([]uintptr, 64)
+	n := runtime.Callers(3, pcs)
+	frames := runtime.CallersFrames(pcs[:n])
+	for {
+		fr, more := frames.Next()
+		if fr.Function != "" && !strings.HasPrefix(fr.Function, "runtime.") && !strings.HasPrefix(fr.Function, "verif/rt.") {
+			fn := fr.Function
+			if i := strings.Index(fn, ".func"); i > 0 {
+				fn = fn[:i]
+			}
+			return fn
+		}
+		if !more {
+			return "?"
+		}
+	}
+}
+
 // Go spawns a new controlled thread.
-func Go(f func()) {
+func Go(f func()) { GoNamed("", f) }
+
+func GoNamed(name string, f func()) {
 	s := Current()
 	if s == nil {
 		go f()
@@ -122,8 +184,11 @@ func Go(f func()) {
 		return
 	}
 	p := s.cur
-	t := s.newThread()
 	p.nspawn++
+	if name == "" {
+		name = fmt.Sprintf("%s.%d", p.name, p.nspawn)
+	}
+	t := s.newThread(name)
 	t.cid = mix(p.cid, uint64(p.nspawn)+0x9e37)
 	t.vc = make([]uint32, len(s.threads))
 	copy(t.vc, p.vc)
@@ -132,12 +197,15 @@ func Go(f func()) {
 	t.parked = true
 	t.opName = "start"
 	go s.threadMain(t, f)
-	// spawning is a point: the child may run first
-	Point("go", nil)
+	Point("go", nil) // spawning is a point: the child may run first
 }
 
 // Point is a scheduling point. enabled==nil means always enabled.
-func Point(name string, enabled func() bool) {
+func Point(name string, enabled func() bool) { PointTimed(name, enabled, nil) }
+
+// PointTimed is a point whose enabledness may also change by the passing of virtual time: wakeAt returns
+// the earliest time at which it may (zero = never). The clock only advances when no thread is enabled.
+func PointTimed(name string, enabled func() bool, wakeAt func() time.Time) {
 	s := Current()
 	if s == nil {
 		return
@@ -147,13 +215,35 @@ func Point(name string, enabled func() bool) {
 	}
 	t := s.cur
 	t.enabled = enabled
+	t.wakeAt = wakeAt
 	t.opName = name
 	s.Points++
+	if s.Points > s.MaxPts {
+		s.Horizon = true
+		s.startTeardown()
+		runtime.Goexit()
+	}
 	s.schedule(t, false)
 	if s.teardown {
 		runtime.Goexit()
 	}
-	t.h = mix(t.h, 0x77) // the pending operation is about to execute: the thread's position changed
+	t.enabled, t.wakeAt = nil, nil
+	t.h = mix(t.h, strHash(name)) // the pending operation is about to execute: the thread's position changed
+}
+
+// WaitUntil parks the calling thread until pred holds (a harness gate).
+func WaitUntil(name string, pred func() bool) { Point("gate:"+name, pred) }
+
+// Yield is a plain scheduling point.
+func Yield() { Point("yield", nil) }
+
+func strHash(s string) uint64 {
+	var h uint64 = 14695981039346656037
+	for i := 0; i < len(s); i++ {
+		h ^= uint64(s[i])
+		h *= 1099511628211
+	}
+	return h
 }
 
 func (s *Sched) isEnabled(t *thread) bool {
@@ -165,26 +255,48 @@ func (s *Sched) isEnabled(t *thread) bool {
 
 // schedule picks the next thread. self is the calling thread (parks unless chosen).
 func (s *Sched) schedule(self *thread, exiting bool) {
+	LastActivity.Store(time.Now().UnixNano())
 	var en []*thread
 	curEnabled := false
-	if !exiting && s.isEnabled(self) {
-		en = append(en, self)
-		curEnabled = true
-	}
-	for _, t := range s.threads {
-		if t != self && s.isEnabled(t) {
-			en = append(en, t)
+	for {
+		en = en[:0]
+		curEnabled = false
+		if !exiting && s.isEnabled(self) {
+			en = append(en, self)
+			curEnabled = true
 		}
-	}
-	if len(en) == 0 {
+		for _, t := range s.threads {
+			if t != self && s.isEnabled(t) {
+				en = append(en, t)
+			}
+		}
+		if len(en) > 0 {
+			break
+		}
+		// nobody enabled: let virtual time pass to the earliest timed waiter
+		var next time.Time
+		for _, t := range s.threads {
+			if t.done || t.wakeAt == nil || (t == self && exiting) {
+				continue
+			}
+			if w := t.wakeAt(); !w.IsZero() && (next.IsZero() || w.Before(next)) {
+				next = w
+			}
+		}
+		if !next.IsZero() && next.After(s.now()) {
+			s.clock = next.Sub(processBase)
+			s.clockObj.touchBy(self, uint64(s.clock))
+			continue
+		}
 		alive := false
 		for _, t := range s.threads {
-			if !t.done {
+			if !t.done && !(t == self && exiting) {
 				alive = true
-				s.Blocked = append(s.Blocked, fmt.Sprintf("t%d@%s", t.id, t.opName))
+				s.Blocked = append(s.Blocked, t.name+"@"+t.opName)
 			}
 		}
 		if alive {
+			sort.Strings(s.Blocked)
 			s.Deadlock = true
 			s.startTeardown()
 			if !exiting {
@@ -192,7 +304,7 @@ func (s *Sched) schedule(self *thread, exiting bool) {
 			}
 			return
 		}
-		close(s.finished)
+		s.finOnce.Do(func() { close(s.finished) })
 		return
 	}
 	idx := 0
@@ -214,7 +326,12 @@ func (s *Sched) schedule(self *thread, exiting bool) {
 		if k < len(s.prefix) {
 			idx = s.prefix[k]
 			if idx >= len(en) {
-				panic(fmt.Sprintf("replay divergence at step %d: choice %d of %d", k, idx, len(en)))
+				s.Diverged = fmt.Sprintf("replay divergence at choice %d: choice %d of %d enabled", k, idx, len(en))
+				s.startTeardown()
+				if !exiting {
+					runtime.Goexit()
+				}
+				return
 			}
 		}
 		s.Trace = append(s.Trace, Step{N: len(en), Chosen: idx, CurEnabled: curEnabled})
@@ -238,8 +355,10 @@ func (s *Sched) startTeardown() {
 	s.teardownNext()
 }
 
-// wake parked threads one at a time so that they Goexit.
+// teardownNext wakes parked threads one at a time so that they leave through Goexit.
 func (s *Sched) teardownNext() {
+	s.tmu.Lock()
+	defer s.tmu.Unlock()
 	for _, t := range s.threads {
 		if !t.done && t.parked {
 			t.parked = false
@@ -253,104 +372,60 @@ func (s *Sched) teardownNext() {
 			return // still unwinding
 		}
 	}
-	select {
-	case <-s.finished:
-	default:
-		close(s.finished)
-	}
+	s.finOnce.Do(func() { close(s.finished) })
 }
 
+// InTeardown reports whether the execution is being dismantled: shim operations must return at once.
 func InTeardown() bool { s := Current(); return s != nil && s.teardown }
 
+// Logf appends an observation to the execution's log (a hooked object: order of observations is part of the state).
 func Logf(format string, a ...interface{}) {
 	if s := Current(); s != nil && !s.teardown {
-		s.logObj.Touch(7)
-		s.Log = append(s.Log, fmt.Sprintf(format, a...))
+		msg := fmt.Sprintf(format, a...)
+		s.logObj.Touch(strHash(msg))
+		s.Log = append(s.Log, msg)
 	}
 }
 
-// ---- explorer ----
-
-type Stats struct {
-	Execs, Steps, Deadlocks, Crashes, Pruned, States int
-	Races                                            map[string]int
-	Outcomes                                         map[string]int
-	FirstDeadlock                                    []int
-	FirstDeadlockInfo                                []string
+// ThreadName returns the name of the running thread.
+func ThreadName() string {
+	if s := Current(); s != nil && s.cur != nil {
+		return s.cur.name
+	}
+	return ""
 }
 
-func preemptionsBefore(tr []Step, i int) int {
-	c := 0
-	for _, st := range tr[:i] {
-		if st.Chosen > 0 && st.CurEnabled {
-			c++
-		}
+// SetThreadName renames the running thread (for readable deadlock reports).
+func SetThreadName(n string) {
+	if s := Current(); s != nil && s.cur != nil {
+		s.cur.name = n
 	}
-	return c
 }
 
-func Explore(bound int, prune bool, body func(), check func(*Sched) string) *Stats {
-	st := &Stats{Outcomes: map[string]int{}, Races: map[string]int{}}
-	seen := map[uint64]int{}
-	var rec func(prefix []int, used int)
-	rec = func(prefix []int, used int) {
-		x := Run(prefix, body, func(s *Sched) {
-			if prune {
-				s.Seen = seen
-				s.Budget = func(k int) int {
-					// budget remaining at choice index k: bound - preemptions so far
-					if bound >= 1000 {
-						return 0 // unbounded: any revisit is covered
-					}
-					return bound - preemptionsBefore(s.Trace, k)
-				}
-			}
-		})
-		st.Execs++
-		st.States += x.States
-		if x.Pruned {
-			st.Pruned++
-		}
-		for k, v := range x.Races {
-			st.Races[k] += v
-		}
-		st.Steps += len(x.Trace)
-		if x.Deadlock {
-			st.Deadlocks++
-			if st.FirstDeadlock == nil {
-				for _, s := range x.Trace {
-					st.FirstDeadlock = append(st.FirstDeadlock, s.Chosen)
-				}
-				st.FirstDeadlockInfo = x.Blocked
-			}
-		}
-		if x.Crash != nil {
-			st.Crashes++
-		}
-		if !x.Pruned {
-			st.Outcomes[check(x)]++
-		}
-		tr := x.Trace
-		for i := len(prefix); i < len(tr); i++ {
-			cost := preemptionsBefore(tr, i)
-			if tr[i].CurEnabled {
-				cost++
-			}
-			if cost > bound {
-				continue
-			}
-			for alt := 1; alt < tr[i].N; alt++ {
-				np := make([]int, i+1)
-				for j := 0; j < i; j++ {
-					np[j] = tr[j].Chosen
-				}
-				np[i] = alt
-				rec(np, 0)
-			}
-		}
+// ---- virtual time ----
+
+func (s *Sched) now() time.Time { return processBase.Add(s.clock) }
+
+// Now is the virtual time: the real time at process start plus the virtual offset.
+func Now() time.Time {
+	if s := Current(); s != nil {
+		return s.now()
 	}
-	rec(nil, 0)
-	return st
+	return time.Now()
+}
+
+// Sleep blocks the thread until the virtual clock has advanced by d (it advances only when nothing else can run).
+func Sleep(d time.Duration) {
+	s := Current()
+	if s == nil || s.teardown {
+		return
+	}
+	if d <= 0 {
+		Point("sleep0", nil)
+		return
+	}
+	until := s.now().Add(d)
+	PointTimed("sleep", func() bool { return !s.now().Before(until) }, func() time.Time { return until })
 }
 
 // ---- hashing / objects / vector clocks ----
@@ -363,23 +438,11 @@ func mix(a, b uint64) uint64 {
 	return x
 }
 
+// Obj is a hooked object: a hash chain for the state fingerprint and a clock for happens-before edges.
 type Obj struct {
 	h   uint64
 	clk []uint32
 	reg bool
-}
-
-// NewObj creates a hooked object owned by the current execution.
-func (s *Sched) NewObj() *Obj {
-	return &Obj{}
-}
-
-func NewObj() *Obj {
-	s := Current()
-	if s == nil {
-		return &Obj{}
-	}
-	return s.NewObj()
 }
 
 // Touch records an operation of the current thread on o in the hash chains.
@@ -388,11 +451,15 @@ func (o *Obj) Touch(op uint64) {
 	if s == nil || s.teardown {
 		return
 	}
+	o.touchBy(s.cur, op)
+}
+
+func (o *Obj) touchBy(t *thread, op uint64) {
+	s := Current()
 	if !o.reg {
 		o.reg = true
 		s.objs = append(s.objs, o)
 	}
-	t := s.cur
 	t.h = mix(mix(t.h, op), o.h)
 	o.h = mix(o.h, t.h)
 }
@@ -410,6 +477,7 @@ func join(dst *[]uint32, src []uint32) {
 	}
 }
 
+// Acquire joins the object's clock into the current thread's.
 func (o *Obj) Acquire() {
 	s := Current()
 	if s == nil || s.teardown {
@@ -418,6 +486,7 @@ func (o *Obj) Acquire() {
 	join(&s.cur.vc, o.clk)
 }
 
+// Release joins the current thread's clock into the object's and advances the thread.
 func (o *Obj) Release() {
 	s := Current()
 	if s == nil || s.teardown {
@@ -427,14 +496,17 @@ func (o *Obj) Release() {
 	s.cur.tick()
 }
 
+// RMW models an atomic read-modify-write on the object: acquire and release.
+func (o *Obj) RMW() { o.Acquire(); o.Release() }
+
 func (s *Sched) fingerprint(self *thread) uint64 {
 	var fp uint64 = self.cid
 	for _, t := range s.threads {
-		d := uint64(0)
+		d := uint64(2)
 		if t.done {
-			d = 1
+			d = 3
 		}
-		fp ^= mix(mix(t.cid, t.h), d+2)
+		fp ^= mix(mix(t.cid, t.h), d)
 	}
 	for _, o := range s.objs {
 		fp ^= mix(0x51, o.h)
@@ -442,12 +514,12 @@ func (s *Sched) fingerprint(self *thread) uint64 {
 	return fp
 }
 
-// ---- race detector ----
+// ---- race detector (FastTrack-style, vector clocks) ----
 
 type epoch struct {
-	tid int
-	clk uint32
-	pc  uintptr
+	tid  int
+	clk  uint32
+	site uint32
 }
 
 type shadowCell struct {
@@ -456,58 +528,69 @@ type shadowCell struct {
 	reads []epoch
 }
 
+var siteNames = []string{"?"}
+var siteLocs = []string{"?"}
+
+// RegisterSites is called from the transformed packages' init: names[i] is the function, locs[i] the Type.field.
+func RegisterSites(names, locs []string) uint32 {
+	base := uint32(len(siteNames))
+	siteNames = append(siteNames, names...)
+	siteLocs = append(siteLocs, locs...)
+	return base
+}
+
+// NewSite registers one access site (used by the shims for their own objects).
+func NewSite(fn, loc string) uint32 {
+	siteNames = append(siteNames, fn)
+	siteLocs = append(siteLocs, loc)
+	return uint32(len(siteNames) - 1)
+}
+
 func (s *Sched) hb(e epoch, t *thread) bool {
 	return e.tid == t.id || (e.tid < len(t.vc) && e.clk <= t.vc[e.tid])
 }
 
-func site(pc uintptr) string {
-	f := runtime.FuncForPC(pc)
-	if f == nil {
-		return "?"
+func (s *Sched) race(prev epoch, prevW bool, site uint32, w bool) {
+	kind := func(b bool) string {
+		if b {
+			return "w"
+		}
+		return "r"
 	}
-	return f.Name()
+	a := siteNames[prev.site] + " (" + kind(prevW) + ")"
+	b := siteNames[site] + " (" + kind(w) + ")"
+	if b < a {
+		a, b = b, a
+	}
+	loc := siteLocs[site]
+	key := loc + ": " + a + " || " + b
+	if r, ok := s.Races[key]; ok {
+		r.Count++
+		return
+	}
+	s.Races[key] = &Race{Loc: loc, A: a, B: b, Count: 1}
 }
 
-func (s *Sched) race(kind string, prev epoch, pc uintptr) {
-	a, b := site(prev.pc), site(pc)
-	s.Races[kind+" "+a+" || "+b]++
-}
-
-func access(p uintptr, write bool) {
+// Access records a memory access at address p by the current thread.
+func Access(p unsafe.Pointer, write bool, site uint32) {
 	s := Current()
 	if s == nil || s.teardown {
 		return
 	}
 	t := s.cur
-	var pc uintptr
-	if wantSites {
-		var pcs [8]uintptr
-		n := runtime.Callers(3, pcs[:])
-		pc = pcs[0]
-		for i := 0; i < n; i++ { // first frame outside the shims
-			if f := runtime.FuncForPC(pcs[i]); f != nil && !strings.HasPrefix(f.Name(), "verif/shim") && !strings.HasPrefix(f.Name(), "verif/rt") {
-				pc = pcs[i]
-				break
-			}
-		}
-	}
 	c := s.shadow[p]
 	if c == nil {
 		c = &shadowCell{}
 		s.shadow[p] = c
 	}
-	me := epoch{t.id, t.vc[t.id], pc}
+	me := epoch{t.id, t.vc[t.id], site}
 	if c.hasW && !s.hb(c.w, t) {
-		if write {
-			s.race("W/W", c.w, pc)
-		} else {
-			s.race("W/R", c.w, pc)
-		}
+		s.race(c.w, true, site, write)
 	}
 	if write {
 		for _, r := range c.reads {
 			if !s.hb(r, t) {
-				s.race("R/W", r, pc)
+				s.race(r, false, site, true)
 			}
 		}
 		c.w, c.hasW, c.reads = me, true, c.reads[:0]
@@ -522,7 +605,8 @@ func access(p uintptr, write bool) {
 	}
 }
 
-var wantSites = os.Getenv("NOSITE") == ""
+// Rd records a read of *p and returns the value.
+func Rd[T any](p *T, site uint32) T { Access(unsafe.Pointer(p), false, site); return *p }
 
-func Rd[T any](p *T) T { access(uintptr(unsafe.Pointer(p)), false); return *p }
-func W[T any](p *T)    { access(uintptr(unsafe.Pointer(p)), true) }
+// W records a write of *p (called right after the write, before any scheduling point).
+func W[T any](p *T, site uint32) { Access(unsafe.Pointer(p), true, site) }
